@@ -1,6 +1,6 @@
 (* Lemmas behind Props/C16.v: generation fencing in the consumer group (Model/Group.v). *)
 From Coq Require Import Lia.
-From AV Require Import Base.Util Model.Group Model.GroupObs Proofs.GroupInv Proofs.GroupInvH Proofs.GroupOut.
+From AV Require Import Base.Util Model.Group Model.GroupObs Proofs.GroupInv Proofs.GroupInvH Proofs.GroupOut Proofs.GroupC17.
 
 Lemma len_cnt : forall A (p : A -> bool) l, length (filter p l) = cnt p l.
 Proof. reflexivity. Qed.
@@ -81,14 +81,12 @@ Qed.
 (* ---------- eviction: consumers are stopped by the very call that learns of it ---------- *)
 Definition evicting (k : ekind) : bool := match k with KIllGen | KInvGroup | KUnkMember | KTimeout => true | _ => false end.
 
-Lemma evicted_stopped : forall gk evs k, let s := state_after gk evs in
-  evicting k = true ->
+Lemma evicted_local : forall k s, evicting k = true -> (is_group s = false -> consumers s = []) ->
   consumers (fst (rejoin_after_error k s)) = [] /\
   (forall c, In c (consumers s) -> In (OStopC (c_id c)) (snd (rejoin_after_error k s))) /\
   (k = KInvGroup \/ k = KUnkMember -> member (fst (rejoin_after_error k s)) = 0).
 Proof.
-  intros gk evs k s Ek. pose proof (j1 _ _ (i_core _ (reachable_Inv gk evs))) as NG. fold s in NG. clearbody s.
-  ds s. cbn in NG. destruct grp.
+  intros k s Ek NG. ds s. cbn in NG. destruct grp.
   - clear NG. destruct k; try discriminate; destruct stp; destruct dc0;
       cbv [rejoin_after_error resched schedule_rejoin new_timer on_group_leave seq emit upd fst snd
            stopping rejoin_needed dc timers next_timer consumers is_group member set_consumers set_member
@@ -102,6 +100,14 @@ Proof.
       (split; [reflexivity|split; [intros c []|intros; try reflexivity; destruct H; discriminate]]).
 Qed.
 
+Lemma evicted_stopped : forall gk evs k, let s := state_after gk evs in
+  evicting k = true ->
+  consumers (fst (rejoin_after_error k s)) = [] /\
+  (forall c, In c (consumers s) -> In (OStopC (c_id c)) (snd (rejoin_after_error k s))) /\
+  (k = KInvGroup \/ k = KUnkMember -> member (fst (rejoin_after_error k s)) = 0).
+Proof.
+  intros gk evs k s Ek. apply evicted_local; auto. exact (j1 _ _ (i_core _ (reachable_Inv gk evs))).
+Qed.
 
 (* ---------- consumers are created with the generation / member id of the sync they come from ---------- *)
 Lemma commit_identity : forall gk evs e cid t p g m, let s := state_after gk evs in
@@ -284,4 +290,42 @@ Proof.
   destruct G as (g & G1 & G2 & G3).
   pose proof (no_live_while_joining grp (evs ++ [e]) g) as X. unfold state_after in X. rewrite fold_left_app in X. cbn [fold_left] in X.
   fold (state_after grp evs) in X. fold s in X. exact (X G1 G2 G3).
+Qed.
+
+
+(* ---------- eviction, step level: the reply that carries the error stops every registered consumer in that very step ---------- *)
+Inductive delivers_evicting (s : state) : event -> ekind -> Prop :=
+| de_join : forall rid k g rest, take_first (awaits (GJoin rid)) (gens s) = Some (g, rest) -> delivers_evicting s (EJoin rid (JFail k)) k
+| de_sync : forall rid k g rest, take_first (awaits (GSync rid)) (gens s) = Some (g, rest) -> delivers_evicting s (ESync rid (SFail k)) k
+| de_hb : forall rid k, hb_req s = Some rid -> hb_running s = true -> delivers_evicting s (EHbReply rid (RFail k)) k
+| de_cfail : forall cid k, can_fail cid s = true -> delivers_evicting s (ECFail cid k) k.
+
+Lemma map_cid_fail : forall cid l c, In c l -> In (c_fail cid c) (map (c_fail cid) l) /\ c_id (c_fail cid c) = c_id c.
+Proof. intros cid l c H. split; [apply in_map; auto|]. unfold c_fail. destruct (c_id c =? cid); reflexivity. Qed.
+
+Lemma evicted_step : forall grp evs e k, let s := state_after grp evs in
+  delivers_evicting s e k -> evicting k = true ->
+  consumers (fst (step s e)) = [] /\ (forall c, In c (consumers s) -> In (OStopC (c_id c)) (snd (step s e))).
+Proof.
+  intros grp evs e k s D Ek. pose proof (j1 _ _ (i_core _ (reachable_Inv grp evs))) as NG. fold s in NG. clearbody s.
+  destruct D as [rid k g rest T|rid k g rest T|rid k Hq Hr|cid k CF].
+  - rewrite (join_fail_step _ _ _ _ _ T). cbn [fst snd].
+    destruct (evicted_local k (set_gens rest s) Ek) as (A & B & _); [destruct s; exact NG|].
+    split; [destruct (fst (rejoin_after_error k (set_gens rest s))); exact A|]. intros c Hc. apply B. destruct s; exact Hc.
+  - rewrite (sync_fail_step _ _ _ _ _ T). cbn [fst snd].
+    destruct (evicted_local k (set_gens rest s) Ek) as (A & B & _); [destruct s; exact NG|].
+    split; [destruct (fst (rejoin_after_error k (set_gens rest s))); exact A|]. intros c Hc. apply B. destruct s; exact Hc.
+  - rewrite (hb_fail_step _ _ _ Hq Hr). cbn [fst snd].
+    destruct (evicted_local k (set_hb_running false (set_hb_req None s)) Ek) as (A & B & _); [destruct s; exact NG|].
+    split; [exact A|]. intros c Hc. right. apply B. destruct s; exact Hc.
+  - cbn [step]. unfold on_cfail. rewrite CF.
+    set (s1 := set_stops _ (set_gens _ (set_consumers (map (c_fail cid) (consumers s)) s))).
+    assert (C1 : consumers s1 = map (c_fail cid) (consumers s)) by (subst s1; destruct s; reflexivity).
+    assert (G1 : is_group s1 = is_group s) by (subst s1; destruct s; reflexivity).
+    destruct (evicted_local k s1 Ek) as (A & B & _).
+    { rewrite G1, C1. intros X. rewrite (NG X). reflexivity. }
+    assert (R : consumers (fst (rejoin_after_error k s1)) = [] /\
+                (forall c, In c (consumers s) -> In (OStopC (c_id c)) (snd (rejoin_after_error k s1)))).
+    { split; [exact A|]. intros c Hc. destruct (map_cid_fail cid _ _ Hc) as [X Y]. rewrite <- Y. apply B. rewrite C1. exact X. }
+    clearbody s1. destruct k; try discriminate; exact R.
 Qed.
